@@ -172,6 +172,63 @@ def two_reader_scenarios() -> Iterator[Tuple[str, List[Event], bool]]:
             yield f"2r-{j}-{k}", ev, False
 
 
+def ed(i: int, t: int) -> Event:
+    return ("ed", i, t)
+
+
+def edit_scenarios() -> Iterator[Tuple[str, List[Event], bool]]:
+    """The model file is SAVED with another text while a cached run on it is under way (after p ops of the run), then
+    cached and uncached runs on the new and on the old text: every run answers for the text it read, every entry holds
+    the table of the text it is named after."""
+    after = lambda i, new, old: (  # noqa: E731
+        [sp(new)] + st(i, FULL) + [sp(new, 0)] + st(i + 1, FULL) + [sp(new)] + st(i + 2, FULL) + [sp(old)] + st(i + 3, FULL) + [sp(old, 0)] + st(i + 4, FULL)
+    )
+    for p in range(0, FULL + 1):
+        # cold run on text 0, file saved with text 1 after p ops
+        yield f"edit-cold@{p}", [sp(0)] + st(0, p) + [ed(0, 1)] + st(0, FULL) + after(1, 1, 0), False
+    for p in range(0, WARM_OPS + 4):
+        # warm run
+        yield f"edit-warm@{p}", [sp(0)] + st(0, FULL) + [sp(0)] + st(1, p) + [ed(1, 1)] + st(1, FULL) + after(2, 1, 0), False
+    for p in (0, 1, 3, 5, 6, 9, 12):
+        # both entries warm already / saved with an invalid text / an invalid text repaired / saved twice (A B A)
+        yield f"edit-both-warm@{p}", [sp(1)] + st(0, FULL) + [sp(0)] + st(1, p) + [ed(1, 1)] + st(1, FULL) + after(2, 1, 0), False
+        yield f"edit-to-invalid@{p}", [sp(0)] + st(0, p) + [ed(0, 9)] + st(0, FULL) + after(1, 9, 0), False
+        yield f"edit-to-duplicate-symbol@{p}", [sp(0)] + st(0, p) + [ed(0, 7)] + st(0, FULL) + after(1, 7, 0), False
+        yield f"edit-invalid-repaired@{p}", [sp(9)] + st(0, p) + [ed(0, 0)] + st(0, FULL) + after(1, 0, 9), False
+        yield f"edit-there-and-back@{p}", [sp(0)] + st(0, p) + [ed(0, 1)] + st(0, 2) + [ed(0, 0)] + st(0, FULL) + after(1, 1, 0), False
+        # uncached run: nothing to confuse, and nothing may appear in the cache
+        yield f"edit-uncached@{p}", [sp(0, 0)] + st(0, p) + [ed(0, 1)] + st(0, FULL) + after(1, 1, 0), False
+
+
+def overlap_scenarios() -> Iterator[Tuple[str, List[Event], bool]]:
+    """Two (three) COLD cached runs on the same model text overlapping in time — a build that generates several targets
+    from one meta-model in parallel: each must return what an uncached run returns.  Representatives of the 252
+    interleavings of the write sections (C24 runs them all): one run paused at every op boundary of its write section
+    while the other runs through, both orders of the renames, lock step."""
+    n = COLD_OPS - PREFIX
+    for p in range(0, n + 1):
+        # run 0 pauses after p ops of its write section, run 1 goes through, run 0 finishes
+        ev = [sp(0), sp(0)] + st(0, PREFIX) + st(1, PREFIX) + st(0, p) + st(1, FULL) + st(0, FULL)
+        yield f"overlap-pause@{p}", ev + [sp(0)] + st(2, FULL) + [sp(0, 0)] + st(3, FULL), False
+    for p in range(1, n):
+        for q in (p - 1, p, p + 1):
+            # run 0 does p ops, run 1 does q ops, then run 0 finishes, then run 1
+            if 0 <= q <= n:
+                ev = [sp(0), sp(0)] + st(0, PREFIX) + st(1, PREFIX) + st(0, p) + st(1, q) + st(0, FULL) + st(1, FULL)
+                yield f"overlap-{p}-{q}", ev + [sp(0)] + st(2, FULL), False
+    lock = [sp(0), sp(0)]
+    for _ in range(FULL):
+        lock += st(0, 1) + st(1, 1)
+    yield "overlap-lock-step", lock + [sp(0)] + st(2, FULL), False
+    three = [sp(0), sp(0), sp(0)]
+    for _ in range(FULL):
+        three += st(0, 1) + st(1, 1) + st(2, 1)
+    yield "overlap-lock-step-3", three + [sp(0)] + st(3, FULL), False
+    # overlapping runs on different texts, and a cached run overlapping an uncached one
+    yield "overlap-other-text", [sp(0), sp(1)] + st(0, 8) + st(1, 8) + st(0, FULL) + st(1, FULL) + [sp(0)] + st(2, FULL) + [sp(1)] + st(3, FULL), False
+    yield "overlap-uncached", [sp(0), sp(0, 0)] + st(0, 8) + st(1, 2) + st(0, FULL) + st(1, FULL), False
+
+
 def random_schedule(rng: Any, nproc: int, length: int) -> List[Event]:
     ev: List[Event] = []
     spawned = 0
@@ -271,22 +328,32 @@ class Judge:
             if not pr.finished or pr.idx in self.judged:
                 continue
             self.judged.add(pr.idx)
-            valid = pr.text_id not in INVALID
-            want = f"ok:{pr.text_id}" if valid else f"err:{pr.text_id}"
+            # the text the run has to answer for is the one it READ: its model file may have been saved with another text
+            # before (then that one) or after its read (then still the old one).  A tree that reads the file more than once
+            # may answer for any of the texts it read; on the pinned tree there is exactly one read.
+            read = [r for r in pr.read_ids if r != "?"] or [pr.text_id]
+            wants = [(f"ok:{t}" if t not in INVALID else f"err:{t}") for t in read]
+            want = wants[0]
+            edited = any(e[0] == "ed" and e[1] == pr.idx for e in self.sched[: k + 1])
+            whose = f"text {pr.text_id}" + (f", file edited during the run, read {read}" if edited else "")
+            tid = read[0]
+            if pr.outcome in wants:
+                tid = read[wants.index(pr.outcome)]
+                want = pr.outcome
             if pr.outcome in ("killed",):
                 continue
             if pr.hung or pr.outcome == "hang":
-                self.fail(k, f"run-hangs:{pr.hang_at}", f"run {pr.idx} (text {pr.text_id}, flag {pr.flag}) did not come back from op {pr.hang_at} (blocked or spinning on what another run left behind)")
+                self.fail(k, f"run-hangs:{pr.hang_at}", f"run {pr.idx} ({whose}, flag {pr.flag}) did not come back from op {pr.hang_at} (blocked or spinning on what another run left behind)")
                 continue
             if pr.outcome == "crashed":
-                ref = reference(world.texts[pr.text_id])
+                ref = reference(world.texts[tid])
                 if pr.idx not in self.faulted and ref != ("crash", pr.exc_type):
-                    self.fail(k, f"spurious-crash:{pr.exc_type}", f"run {pr.idx} (text {pr.text_id}, flag {pr.flag}) raised {pr.exc_type} ({pr.exc_msg}) although no fault was injected into it")
+                    self.fail(k, f"spurious-crash:{pr.exc_type}", f"run {pr.idx} ({whose}, flag {pr.flag}) raised {pr.exc_type} ({pr.exc_msg}) although no fault was injected into it")
                 continue
             if pr.outcome != want:
-                self.fail(k, "result-differs-from-uncached", f"run {pr.idx} (text {pr.text_id}, flag {pr.flag}) returned {pr.outcome}, an uncached run returns {want}")
+                self.fail(k, "result-differs-from-uncached", f"run {pr.idx} ({whose}, flag {pr.flag}) returned {pr.outcome}, an uncached run returns {want}")
             elif pr.result is not None and pr.outcome.startswith("ok"):
-                ref = reference(world.texts[pr.text_id])
+                ref = reference(world.texts[tid])
                 try:
                     got = fingerprint(pr.result)
                 except BaseException as e:  # noqa  (a damaged table that cannot even be walked)
@@ -294,7 +361,7 @@ class Judge:
                 if got != ref:
                     self.fail(k, "symbol-table-differs-from-uncached", f"run {pr.idx}: symbol table differs from the one of an uncached run")
             elif pr.result is not None and pr.outcome.startswith("err"):
-                if pr.result[1] != reference(world.texts[pr.text_id]):
+                if pr.result[1] != reference(world.texts[tid]):
                     self.fail(k, "error-differs-from-uncached", f"run {pr.idx}: error message differs from the one of an uncached run")
         # runs without the flag never touch the cache
         log = world.log
